@@ -39,6 +39,15 @@ from pbt.run import Violation
 WATCHED = (z.SERVER_PRESENCE, z.SCHEDULED, z.EVENTS, z.BLACKEDOUT_SERVERS)
 TRAIT_NAMES = ['ta', 'tb', 'tc']
 UNPUBLISHED_TRAIT = 'tx'
+# weekday -> time of day, as cellsync stores utils.reboot_schedule() results
+REBOOT_SCHEDULES = [
+    None,
+    {6: [23, 59, 59]},
+    {0: [1, 0, 0], 3: [1, 0, 0]},
+    {day: [0, 0, 1] for day in range(7)},
+    {2: [12, 0, 0]},
+    {5: [23, 59, 59], 6: [23, 59, 59]},
+]
 UNPUBLISHED_TRAITS = ['tx', 'ty']
 PARTS = ['_default', 'partB', 'partC']
 _TIME = {'s': 1, 'm': 60, 'h': 3600, 'd': 86400}
@@ -989,6 +998,15 @@ class MasterSim(object):
                 masterapi.cell_insert_bucket(self.admin, pod)
         else:
             masterapi.create_event(self.admin, 0, 'cell', None)
+
+    def op_partsched(self, part_idx, sched_idx):
+        """The reboot schedule of a partition changes (cellsync writes the
+        partition node; masters read it when they start)."""
+        part = PARTS[part_idx % self.case.get('nparts', 1)]
+        schedule = REBOOT_SCHEDULES[sched_idx % len(REBOOT_SCHEDULES)]
+        data = {} if schedule is None else {'reboot-schedule': schedule}
+        self.tick()
+        zkutils.put(self.admin, z.path.partition(part), data)
 
     def op_duprecord(self, idx, sidx):
         """A stale second placement record of a placed instance appears
